@@ -678,6 +678,9 @@ func (x *inliner) expand(call *ast.CallExpr, h *FuncInfo, mode int, lhs []ast.Ex
 	if sig.Variadic() && call.Ellipsis == token.NoPos {
 		return nil
 	}
+	if sig.TypeParams().Len() > 0 {
+		return nil // a generic helper's body mentions its type parameters; rules read the instantiation at the call
+	}
 	if len(call.Args) != sig.Params().Len() {
 		return nil // f(g()) with multiple results
 	}
@@ -2341,6 +2344,71 @@ func (p *Prog) normalise() {
 		if len(van) == 0 {
 			continue
 		}
+		// method <-> function conversion under the same name: `(*T).f()` became `f(t.field)` or the reverse
+		{
+			shortOf := func(n string) string { return n[strings.LastIndex(n, ".")+1:] }
+			recvOf := func(n string) string {
+				if j := strings.Index(n, ".("); j >= 0 {
+					return n[j+1 : strings.LastIndex(n, ".")]
+				}
+				return ""
+			}
+			var rest []*FuncInfo
+			for _, nf := range news {
+				var cands []string
+				for _, v := range van {
+					if shortOf(v) == shortOf(nf.Name) && recvOf(v) != recvOf(nf.Name) {
+						cands = append(cands, v)
+					}
+				}
+				same := 0
+				for _, o := range news {
+					if o != nf && shortOf(o.Name) == shortOf(nf.Name) {
+						same++
+					}
+				}
+				if len(cands) != 1 || same != 0 {
+					rest = append(rest, nf)
+					continue
+				}
+				old := cands[0]
+				nsig := nf.Obj.Type().(*types.Signature)
+				var params []*types.Var
+				for i := 0; i < nsig.Params().Len(); i++ {
+					params = append(params, nsig.Params().At(i))
+				}
+				var recv *types.Var
+				if rt := recvOf(old); rt != "" {
+					tn := strings.TrimSuffix(strings.TrimPrefix(strings.TrimPrefix(rt, "("), "*"), ")")
+					if o, ok := pk.Types.Scope().Lookup(tn).(*types.TypeName); ok {
+						var t types.Type = o.Type()
+						if strings.HasPrefix(rt, "(*") {
+							t = types.NewPointer(t)
+						}
+						recv = types.NewVar(nf.Obj.Pos(), pk.Types, "", t)
+					}
+					if recv == nil {
+						rest = append(rest, nf)
+						continue
+					}
+				}
+				normaliseLog = append(normaliseLog, fmt.Sprintf("converted: %s is treated as %s", nf.Name, old))
+				delete(p.funcs, nf.Name)
+				nf.Name = old
+				p.funcs[old] = nf
+				syn := types.NewFunc(nf.Obj.Pos(), nf.Obj.Pkg(), shortOf(old), types.NewSignatureType(recv, nil, nil, types.NewTuple(params...), nsig.Results(), nsig.Variadic()))
+				funcCanon[nf.Obj] = syn
+				nf.Obj = syn
+				var van2 []string
+				for _, v := range van {
+					if v != old {
+						van2 = append(van2, v)
+					}
+				}
+				van = van2
+			}
+			news = rest
+		}
 		var keep []*FuncInfo
 		for _, nf := range news {
 			var cands []string
@@ -2549,6 +2617,154 @@ func (p *Prog) normalise() {
 			if !dropped {
 				break
 			}
+		}
+	}
+}
+
+// desugarLibraryCalls: statement-level library idioms that stand for a loop are
+// spelled out before any rule runs (on the unchanged tree too), so that a
+// modernisation of a hand-written loop into the library call changes nothing:
+//
+//	maps.Copy(dst, src)   =>   for k, v := range src { dst[k] = v }
+//	for i := range n      =>   for i := 0; i < n; i++ { }
+func (p *Prog) desugarLibraryCalls() {
+	seq := 0
+	for _, fi := range p.flist {
+		if fi.Decl.Body == nil {
+			continue
+		}
+		info := fi.Pkg.TypesInfo
+		isCopy := func(st ast.Stmt) *ast.CallExpr {
+			es, ok := st.(*ast.ExprStmt)
+			if !ok {
+				return nil
+			}
+			c, ok := es.X.(*ast.CallExpr)
+			if !ok || len(c.Args) != 2 {
+				return nil
+			}
+			f := callee(info, c)
+			if f == nil || f.Pkg() == nil || f.Pkg().Path() != "maps" || f.Name() != "Copy" {
+				return nil
+			}
+			if _, isMap := info.TypeOf(c.Args[1]).Underlying().(*types.Map); !isMap {
+				return nil
+			}
+			return c
+		}
+		isIntRange := func(st ast.Stmt) *ast.RangeStmt {
+			rs, ok := st.(*ast.RangeStmt)
+			if !ok || rs.Value != nil || (rs.Tok != token.DEFINE && rs.Key != nil) {
+				return nil
+			}
+			t := info.TypeOf(rs.X)
+			if t == nil {
+				return nil
+			}
+			if b, isBasic := t.Underlying().(*types.Basic); !isBasic || b.Info()&types.IsInteger == 0 {
+				return nil
+			}
+			return rs
+		}
+		has := false
+		ast.Inspect(fi.Decl.Body, func(n ast.Node) bool {
+			if st, ok := n.(ast.Stmt); ok && (isCopy(st) != nil || isIntRange(st) != nil) {
+				has = true
+			}
+			return !has
+		})
+		if !has {
+			continue
+		}
+		cp := &astCopier{info: info}
+		nb := cp.copyBlock(fi.Decl.Body)
+		changed := false
+		// for i := range n   =>   for i := 0; i < n; i++
+		intLoop := func(rs *ast.RangeStmt) *ast.ForStmt {
+			seq++
+			pos := rs.Pos()
+			t := info.TypeOf(rs.X)
+			if b, isBasic := t.(*types.Basic); isBasic && b.Info()&types.IsUntyped != 0 {
+				t = types.Typ[types.Int]
+			}
+			var keyDef *ast.Ident
+			var kv *types.Var
+			if id, ok := rs.Key.(*ast.Ident); ok && id.Name != "_" && info.Defs[id] != nil {
+				keyDef = id
+				kv, _ = info.Defs[id].(*types.Var)
+			}
+			if kv == nil {
+				kv = types.NewVar(pos, fi.Pkg.Types, fmt.Sprintf("ri_%d", seq), t)
+				keyDef = &ast.Ident{NamePos: pos, Name: kv.Name()}
+				info.Defs[keyDef] = kv
+			}
+			use := func() *ast.Ident {
+				id := &ast.Ident{NamePos: pos, Name: kv.Name()}
+				info.Uses[id] = kv
+				info.Types[id] = types.TypeAndValue{Type: kv.Type()}
+				return id
+			}
+			zero := &ast.BasicLit{ValuePos: pos, Kind: token.INT, Value: "0"}
+			info.Types[zero] = types.TypeAndValue{Type: kv.Type(), Value: constant.MakeInt64(0)}
+			cond := &ast.BinaryExpr{X: use(), OpPos: pos, Op: token.LSS, Y: rs.X}
+			info.Types[cond] = types.TypeAndValue{Type: types.Typ[types.Bool]}
+			return &ast.ForStmt{For: rs.For,
+				Init: &ast.AssignStmt{Lhs: []ast.Expr{keyDef}, TokPos: pos, Tok: token.DEFINE, Rhs: []ast.Expr{zero}},
+				Cond: cond,
+				Post: &ast.IncDecStmt{X: use(), TokPos: pos, Tok: token.INC},
+				Body: rs.Body}
+		}
+		mapStmtLists(nb, true, func(list []ast.Stmt) []ast.Stmt {
+			var out []ast.Stmt
+			for _, st := range list {
+				if rs := isIntRange(st); rs != nil {
+					out = append(out, intLoop(rs))
+					changed = true
+					continue
+				}
+				if ls, ok := st.(*ast.LabeledStmt); ok {
+					if rs := isIntRange(ls.Stmt); rs != nil {
+						ls.Stmt = intLoop(rs)
+						changed = true
+					}
+				}
+				c := isCopy(st)
+				if c == nil || !stableArg(info, c.Args[0]) {
+					out = append(out, st)
+					continue
+				}
+				mt := info.TypeOf(c.Args[1]).Underlying().(*types.Map)
+				seq++
+				pos := c.Pos()
+				kv := types.NewVar(pos, fi.Pkg.Types, fmt.Sprintf("mck_%d", seq), mt.Key())
+				vv := types.NewVar(pos, fi.Pkg.Types, fmt.Sprintf("mcv_%d", seq), mt.Elem())
+				mk := func(v *types.Var, def bool) *ast.Ident {
+					id := &ast.Ident{NamePos: pos, Name: v.Name()}
+					if def {
+						info.Defs[id] = v
+					} else {
+						info.Uses[id] = v
+						info.Types[id] = types.TypeAndValue{Type: v.Type()}
+					}
+					return id
+				}
+				ix := &ast.IndexExpr{X: c.Args[0], Lbrack: pos, Index: mk(kv, false), Rbrack: pos}
+				info.Types[ix] = types.TypeAndValue{Type: mt.Elem()}
+				body := &ast.BlockStmt{Lbrace: pos, Rbrace: pos, List: []ast.Stmt{
+					&ast.AssignStmt{Lhs: []ast.Expr{ix}, TokPos: pos, Tok: token.ASSIGN, Rhs: []ast.Expr{mk(vv, false)}},
+				}}
+				out = append(out, &ast.RangeStmt{For: pos, Key: mk(kv, true), Value: mk(vv, true), TokPos: pos, Tok: token.DEFINE, X: c.Args[1], Body: body})
+				changed = true
+			}
+			return out
+		})
+		if changed {
+			nd := *fi.Decl
+			nd.Body = nb
+			if fi.OrigDecl == nil {
+				fi.OrigDecl = fi.Decl
+			}
+			fi.Decl = &nd
 		}
 	}
 }
